@@ -1,4 +1,5 @@
 import QModel.Core
+import QGen.C14
 /-!
 # C14 — sampled data and empirical distributions (model of quara/qcircuit/data_generator.py,
 quara/utils/number_util.py:to_stream and the seed plumbing of quara/qcircuit/experiment.py)
@@ -8,7 +9,7 @@ The model mirrors the code as it is:
 * `randomNumberToData` = `_random_number_to_data`: the cumulative-sum loop with the strict test
   `random_number < cumulative_sum`, and the fall-through `len(probdist) - 1` (an `Int`: `-1` for an empty vector);
 * `calcEmpiDistSequence` = `calc_empi_dist_sequence`: one pass over the data, a running frequency vector, the
-  requested sample sizes consumed one after the other, the validation errors in the order of the code (note: a
+  requested sample sizes consumed one after the other, the validation errors in the order of the code; its tests and offsets are the generated `QGen.C14.empi*` (note: a
   first sample size `≤ 0` is never reached — the loop then validates all data and returns the empty list);
 * `toStream` / `Store`: `None` → the global numpy state, `int` → a *fresh* generator seeded with it, generator →
   itself; the pseudo-random generator is abstract (`PRNG`: `seed`, `next` uniform, `multi` multinomial draw);
@@ -23,12 +24,13 @@ namespace QM.C14
 /-- the `for index, prob in enumerate(probdist)` loop from position `idx` with running sum `cum` -/
 def r2dLoop : List Rat → Rat → Rat → Nat → Option Nat
   | [], _, _, _ => none
-  | p :: ps, u, cum, idx => if u < cum + p then some idx else r2dLoop ps u (cum + p) (idx + 1)
+  | p :: ps, u, cum, idx => if QGen.C14.hit u (cum + p) then some idx else r2dLoop ps u (cum + p) (idx + 1)
 
+/-- comparison, start value and fall-through result are the generated ones (`QGen.C14`, regenerated from the source) -/
 def randomNumberToData (probs : List Rat) (u : Rat) : Int :=
-  match r2dLoop probs u 0 0 with
+  match r2dLoop probs u QGen.C14.cumStart 0 with
   | some i => (i : Int)
-  | none => (probs.length : Int) - 1
+  | none => QGen.C14.fallThrough (probs.length : Int)
 
 /-- `generate_data_from_prob_dist` after the random numbers have been drawn -/
 def dataOfUniforms (probs : List Rat) (us : List Rat) : List Int := us.map (randomNumberToData probs)
@@ -60,26 +62,26 @@ def empiLoop (m : Nat) (lenData : Nat) :
     List Int → Nat → List Nat → Int → Nat → List Int → List (Int × List Rat) → Except EmpiErr (List (Int × List Rat))
   | [], _, _, _, _, _, acc => .ok acc.reverse
   | d :: ds, index, freq, next, pos, rest, acc =>
-    if ¬ (0 ≤ d ∧ d < (m : Int)) then .error (.dataOutOfRange index)
+    if !QGen.C14.empiInRange d (m : Int) then .error (.dataOutOfRange index)
     else
       let freq' := bump freq d.toNat
-      if ((index : Int) + 1) = next then
-        let acc' := (next, freq'.map fun (c : Nat) => ((c : Int) : Rat) / (((index + 1 : Nat) : Int) : Rat)) :: acc
+      if QGen.C14.empiHit index next then
+        let acc' := (next, freq'.map fun (c : Nat) => ((c : Int) : Rat) / (((QGen.C14.empiDiv index : Nat) : Int) : Rat)) :: acc
         match rest with
         | [] => .ok acc'.reverse
         | n2 :: rest' =>
-          if n2 > (lenData : Int) then .error (.numSumTooLarge (pos + 1))
-          else if next ≥ n2 then .error (.notIncreasing (pos + 1))
+          if QGen.C14.empiTooLarge n2 (lenData : Int) then .error (.numSumTooLarge (pos + 1))
+          else if QGen.C14.empiNotIncreasing next n2 then .error (.notIncreasing (pos + 1))
           else empiLoop m lenData ds (index + 1) freq' n2 (pos + 1) rest' acc'
       else empiLoop m lenData ds (index + 1) freq' next pos rest acc
 
 def calcEmpiDistSequence (measurementNum : Int) (data : List Int) (numSums : List Int) :
     Except EmpiErr (List (Int × List Rat)) :=
-  if measurementNum < 0 then .error .negativeMeasurementNum
+  if QGen.C14.empiNegative measurementNum then .error .negativeMeasurementNum
   else match numSums with
     | [] => .ok []
     | n0 :: rest =>
-      if n0 > (data.length : Int) then .error (.numSumTooLarge 0)
+      if QGen.C14.empiTooLarge n0 (data.length : Int) then .error (.numSumTooLarge 0)
       else empiLoop measurementNum.toNat data.length data 0 (List.replicate measurementNum.toNat 0) n0 0 rest []
 
 /-! ## streams -/
@@ -116,17 +118,30 @@ inductive Stream (G : Type)
   | glob
   | fresh (g : G)        -- a generator object nobody else holds
   | held (k : Nat)
+  | invalid              -- not a stream at all (e.g. the int itself handed on): any use fails
 
-def toStream {G : Type} (P : PRNG G) : SeedArg → Stream G
-  | .none => .glob
-  | .int s => .fresh (P.seed s)
-  | .gen k => .held k
+/-- one branch of `to_stream`: action code (generated table: 0 global, 1 fresh MT19937 from the int, 2 the argument
+itself) applied to the argument -/
+def streamAct {G : Type} (P : PRNG G) (code : Nat) (a : SeedArg) : Stream G :=
+  match code, a with
+  | 0, _ => .glob
+  | 1, .int s => .fresh (P.seed s)
+  | 2, .gen k => .held k
+  | _, _ => .invalid
+
+/-- `to_stream`: the branch is chosen by the class of the argument, what it returns comes from the generated table -/
+def toStream {G : Type} (P : PRNG G) (a : SeedArg) : Stream G :=
+  match a with
+  | .none => streamAct P QGen.C14.streamOfNone a
+  | .int _ => streamAct P QGen.C14.streamOfInt a
+  | .gen _ => streamAct P QGen.C14.streamOfOther a
 
 /-- read the generator state behind a stream (`none`: the caller passed a generator it does not hold) -/
 def Stream.get {G : Type} (st : Store G) : Stream G → Option G
   | .glob => some st.glob
   | .fresh g => some g
   | .held k => st.gens[k]?
+  | .invalid => none
 
 /-- write the advanced state back; a fresh generator stays the same *object*, so later uses of the same stream see
 the advanced state: the result stream carries it -/
@@ -134,6 +149,7 @@ def Stream.put {G : Type} (st : Store G) : Stream G → G → Store G × Stream 
   | .glob, g => ({ st with glob := g }, .glob)
   | .fresh _, g => (st, .fresh g)
   | .held k, g => ({ st with gens := st.gens.set k g }, .held k)
+  | .invalid, _ => (st, .invalid)
 
 /-- `generate_data_from_prob_dist(prob_dist, data_num, stream)` on an already converted stream -/
 def genDataOn {G : Type} (P : PRNG G) (st : Store G) (s : Stream G) (probs : List Rat) (n : Nat) :
@@ -235,6 +251,12 @@ def handle (args : List String) : Option String :=
       let probs ← parseList? parseRat? probs
       let us ← parseList? parseRat? us
       some (showList toString (dataOfUniforms probs us))
+  | ["pipe", probs, us, ns] => do
+      -- generate_data_from_prob_dist (uniforms given) followed by calc_empi_dist_sequence(len(probs), data, ns)
+      let probs ← parseList? parseRat? probs
+      let us ← parseList? parseRat? us
+      let ns ← parseList? parseInt? ns
+      some (showEmpi (calcEmpiDistSequence probs.length (dataOfUniforms probs us) ns))
   | ["empi", m, data, ns] => do
       let m ← parseInt? m
       let data ← parseList? parseInt? data
